@@ -32,6 +32,11 @@ func isEmptyValue(v reflect.Value) bool {
 }
 
 func convertToDecimalIfNumberAndCheck(val any) (wasNumber bool, out decimal.Decimal) {
+	// a decimal.Decimal reached through a pointer is a number like any other number behind a pointer
+	if d, ok := val.(*decimal.Decimal); ok && d != nil {
+		return true, *d
+	}
+
 	v := reflect.ValueOf(val)
 
 	if !isEmptyValue(v) {
